@@ -246,6 +246,20 @@ fn main() {
             println!("{}", wl::scoped::run(seed, shard, count).to_string());
             0
         }
+        "nested" => {
+            quiet_panics();
+            let seed: u64 = args[2].parse().unwrap();
+            let shard: u64 = args[3].parse().unwrap();
+            let count: u64 = args[4].parse().unwrap();
+            println!("{}", wl::nested::run(seed, shard, count).to_string());
+            0
+        }
+        "nested-one" => {
+            if std::env::var("VH_LOUD").is_err() { quiet_panics(); }
+            let o = wl::nested::run_history(args[2].parse().unwrap());
+            for a in &o.actions { println!("{a}"); }
+            if let Some((p, m)) = o.violation { println!("VIOLATION {p} {m}"); 1 } else { 0 }
+        }
         "scoped-one" => {
             quiet_panics();
             let o = wl::scoped::run_history(args[2].parse().unwrap());
